@@ -150,13 +150,20 @@ def check_cs_dispatch(ctx, F):
                 calls = []
                 for ev in p:
                     if ev[0] == "assume" and "P:prong" in ev[2]:
-                        m = re.match(r"^\(P:prong<#(\d+)\)$", ev[2])
+                        # any spelling of `prong < R_PRONG`: prong < R, !(prong >= R), R > prong, prong <= R-1 ... -> (threshold, is-left)
+                        m = re.match(r"^\(P:prong(<|>=|<=|>)#(\d+)\)$", ev[2]) or re.match(r"^\(#(\d+)(<|>=|<=|>)P:prong\)$", ev[2])
                         if not m:
                             bad = "unrecognised prong test `%s`" % ev[2]
                             continue
-                        if int(m.group(1)) != r_prong:
-                            bad = "prong compared with %s, expected R_PRONG=%d" % (m.group(1), r_prong)
-                        side = "L" if ev[3] else "R"
+                        if ev[2].startswith("(P:"):
+                            op, k = m.group(1), int(m.group(2))
+                        else:
+                            k, op = int(m.group(1)), {"<": ">", ">": "<", "<=": ">=", ">=": "<="}[m.group(2)]
+                        # normalise to `prong < T`
+                        thr, left_if_true = {"<": (k, True), ">=": (k, False), "<=": (k + 1, True), ">": (k + 1, False)}[op]
+                        if thr != r_prong:
+                            bad = "prong compared with %s (threshold %d), expected R_PRONG=%d" % (ev[2], thr, r_prong)
+                        side = "L" if bool(ev[3]) == left_if_true else "R"
                     elif ev[0] == "call" and ev[2] is not None:
                         cf = F.fn(ev[2])
                         if cf.get("cls") == "CS_" and cf["name"] == name:
